@@ -352,16 +352,16 @@ fn check_mask(obs: &mut Obs, lengths: &[usize]) {
 
 fn gen_lengths(rng: &mut Rng, n: usize) -> Vec<usize> {
     match rng.random_range(0..6) {
-        0 => vec![rng.random_range(0..12); n],
+        0 => vec![rng.random_range(0..gen::sc(12)); n],
         1 => {
             // one long among short
             let mut v: Vec<usize> = (0..n).map(|_| rng.random_range(0..4)).collect();
             let i = rng.random_range(0..n);
-            v[i] = rng.random_range(20..40);
+            v[i] = rng.random_range(gen::sc(20)..gen::sc(40));
             v
         }
-        2 => (0..n).map(|_| if rng.random_bool(0.5) { 0 } else { rng.random_range(1..6) }).collect(),
-        _ => (0..n).map(|_| rng.random_range(0..16)).collect(),
+        2 => (0..n).map(|_| if rng.random_bool(0.5) { 0 } else { rng.random_range(1..gen::sc(6)) }).collect(),
+        _ => (0..n).map(|_| rng.random_range(0..gen::sc(16))).collect(),
     }
 }
 
@@ -370,9 +370,15 @@ impl Prop for C17 {
     const ID: &'static str = "C17";
 
     fn lanes(tier: Tier) -> Vec<Lane> {
-        vec![Lane::new("main", tier.pick(300_000, 6_000_000))
+        vec![
+            Lane::new("main", tier.pick(300_000, 6_000_000))
             .cap(tier.pick(150, 900))
-            .floor(tier.pick(20_000, 300_000))]
+            .floor(tier.pick(20_000, 300_000)),
+            // every length 10 / 50 / 250 times bigger
+            Lane::new("large", tier.pick(16_000, 300_000))
+                .cap(tier.pick(150, 1200))
+                .floor(tier.pick(1_000, 20_000)),
+        ]
     }
 
     fn rule() -> &'static str {
@@ -403,10 +409,17 @@ impl Prop for C17 {
     }
 
     fn generate(rng: &mut Rng, _tier: Tier, _lane: &str) -> Case {
+        // `large` lane: the multiplier of the case goes to the batch size (up to 400 rows) or to
+        // the lengths of the rows, not both
+        let k = gen::scale();
+        let bscale = if k > 1 && rng.random_bool(0.5) { k.min(50) } else { 1 };
+        if bscale > 1 {
+            gen::set_scale(1);
+        }
         let ambiguous = rng.random_bool(0.1);
         let spec = gen_spec(rng, ambiguous);
         let specials = spec.distinct();
-        let b = rng.random_range(1..=8usize);
+        let b = rng.random_range(1..=8 * bscale);
         let texts: Vec<String> = match rng.random_range(0..10) {
             0 => vec![String::new(); b],
             1 => {
@@ -433,7 +446,7 @@ impl Prop for C17 {
         let task = *["classification", "sequence_classification", "generation", "conditional_generation"]
             .choose(rng)
             .unwrap();
-        let n = rng.random_range(1..=8usize);
+        let n = rng.random_range(1..=8 * bscale);
         let pad_id = *[0u32, 1, 259, 300].choose(rng).unwrap();
         let target_pad_id = *[0u32, 2, 259, 7].choose(rng).unwrap();
         let lens = gen_lengths(rng, n);
